@@ -1,11 +1,13 @@
 /-
 Line-protocol driver for the C02 models (dask job linking + evaluation, pyfunc expression, reference
-interpreter).
+interpreter, actor builders and the pickling of instructions).
 
-  table, assets, key, val: see ForML/Model/SymbolsSexp.lean
+  assets, key, val: see ForML/Model/SymbolsSexp.lean; ptable (functors carry their builder), class, hyper: see
+  ForML/Model/BuilderSexp.lean
   ops:
-    (all assets table x head ((key rank)*))
-        -> (all <run> <dask> <pyfunc> <pyfunc2> <valuein> <wf> <applymode>)
+    (all assets ptable x head ((key rank)*))
+        -> (all <run> <dask> <pyfunc> <pyfunc2> <valuein> <wf> <applymode> <processes> <actors>)
+         | (uninstantiable)                         some builder of the table cannot be instantiated (TypeError)
     run      ::= ((key val)*)                       values of the sinks by the reference interpreter `run`
     dask     ::= (ok ((key val)*) once) | (error duplicated|notAcyclic|recursion)
                                                     values of the outputs of the linked job; once = every task of
@@ -15,12 +17,23 @@ interpreter).
     valuein  ::= ((key val)*) | none                sinks of the table whose head `head` receives `x` (head = none: skipped)
     wf       ::= true | false                       Table.ranked
     applymode::= true | false                       Table.applyMode (domain of the single-function runner)
+    processes::= (ok ((key val)*)) | (error pickling|instantiate|duplicated|notAcyclic|recursion)
+                                                    `runDaskProcesses`: every instruction shipped through its pickle
+    actors   ::= ((a sym ((name hyper)*))*)         the actor symbols standing for configured instances (with parameters)
+    (spec class (hyper*) ((name hyper)*))
+        -> (spec <new> <call> <roundtrip> <call after roundtrip>)
+    new      ::= ok | typeError                     Spec.__new__ (bind_partial)
+    call     ::= (ok ((name hyper)*)) | typeError   Builder.__call__(): the parameter assignment of the actor
+    roundtrip::= same | (changed (hyper*) ((name hyper)*)) | typeError        pickle.loads(pickle.dumps(spec))
+    (truthy val*) -> (true|false ...)               Python truthiness of payloads as the shared model has it
 -/
 import ForML.Model.Sexp
 import ForML.Model.SymbolsSexp
 import ForML.Model.TableWF
 import ForML.Model.Dask
 import ForML.Model.PyFunc
+import ForML.Model.Builder
+import ForML.Model.BuilderSexp
 open ForML ForML.Flow ForML.Flow.PyFunc
 
 def rankOf? : Sexp → Option (Key → Nat)
@@ -65,19 +78,65 @@ def pyfunc2Out (A : Option Assets) (t : Table) (x : Val) : Sexp :=
 def valueInOut (A : Option Assets) (t : Table) (h : Key) (x : Val) : Sexp :=
   .list (t.sinks.map fun k => .list [k.toSexp, (valueIn A t h x t.fuel k).toSexp])
 
+/-- the configured instances of the table's builders (first occurrence order, no repetition) -/
+def instancesOf (T : PTable) : List Instance :=
+  T.filterMap fun s => match s.instr with | .functor b _ _ => b.call | _ => none
+
+def knownInstances (T : PTable) : List Instance :=
+  let all := instancesOf T ++ (match T.ship with | some T' => instancesOf T' | none => [])
+  (all.foldl (fun acc i => if acc.contains i then acc else acc ++ [i]) []).filter (fun i => !i.params.isEmpty)
+
+def procErrName : ProcErr → String
+  | .pickling => "pickling" | .instantiate => "instantiate" | .dask e => daskErrName e
+
+def processesOut (code : Instance → Actor) (A : Option Assets) (T : PTable) (sinks : List Key) : Sexp :=
+  match runDaskProcesses code A T with
+  | .ok m => .list [.atom "ok", kvs m sinks]
+  | .error e => .list [.atom "error", .atom (procErrName e)]
+
+def callOut (s : Spec) : Sexp :=
+  match s.call with
+  | some i => .list [.atom "ok", kwargsSexp i.params]
+  | none => .atom "typeError"
+
+def specOut (s : Spec) : Sexp :=
+  match Spec.new s.cls s.args s.kwargs with
+  | none => .list [.atom "spec", .atom "typeError", .atom "typeError", .atom "typeError", .atom "typeError"]
+  | some s =>
+    let (rt, after) := match s.roundtrip with
+      | none => (Sexp.atom "typeError", Sexp.atom "typeError")
+      | some s' =>
+        (if s' = s then Sexp.atom "same"
+         else .list [.atom "changed", .list (s'.args.map Hyper.toSexp), kwargsSexp s'.kwargs], callOut s')
+    .list [.atom "spec", .atom "ok", callOut s, rt, after]
+
 def stepC02 : Sexp → Sexp
   | .list [.atom "all", assets, tbl, x, h, rk] =>
-    match Assets.ofSexp? assets, Table.ofSexp? tbl, Val.ofSexp? x, rankOf? rk with
-    | some A, some t, some x, some r =>
-      let vin := match h with
-        | .atom "none" => some (.atom "none")
-        | hk => (Key.ofSexp? hk).map fun h => valueInOut A t h x
-      match vin with
-      | none => .atom "bad-op"
-      | some vin =>
-        .list [.atom "all", runOut A t, daskOut A t, pyfuncOut A t x, pyfunc2Out A t x, vin, Sexp.ofBool (t.ranked r),
-               Sexp.ofBool (t.applyMode A)]
+    match Assets.ofSexp? assets, PTable.ofSexp? tbl, Val.ofSexp? x, rankOf? rk with
+    | some A, some T, some x, some r =>
+      let known := knownInstances T
+      let code := internCode known
+      match T.lower code with
+      | none => .list [.atom "uninstantiable"]
+      | some t =>
+        let vin := match h with
+          | .atom "none" => some (.atom "none")
+          | hk => (Key.ofSexp? hk).map fun h => valueInOut A t h x
+        match vin with
+        | none => .atom "bad-op"
+        | some vin =>
+          .list [.atom "all", runOut A t, daskOut A t, pyfuncOut A t x, pyfunc2Out A t x, vin, Sexp.ofBool (t.ranked r),
+                 Sexp.ofBool (t.applyMode A), processesOut code A T t.sinks,
+                 .list (known.map fun i => .list [.ofNat (code i), .ofNat i.sym, kwargsSexp i.params])]
     | _, _, _, _ => .atom "bad-op"
+  | .list [.atom "spec", c, .list args, kw] =>
+    match ActorClass.ofSexp? c, args.mapM Hyper.ofSexp?, kwargsOf? kw with
+    | some c, some args, some kw => specOut ⟨c, args, kw⟩
+    | _, _, _ => .atom "bad-op"
+  | .list (.atom "truthy" :: vs) =>
+    match vs.mapM Val.ofSexp? with
+    | some vs => .list (vs.map fun v => Sexp.ofBool v.truthy)
+    | none => .atom "bad-op"
   | _ => .atom "bad-op"
 
 def main : IO Unit := driverLoop stepC02
